@@ -28,11 +28,15 @@ type ntlmSess struct {
 // the auth node's gRPC interface.
 func runC14(c *Ctx) {
 	users := []authconfig.UserConfig{{Username: "alice", Password: "correct horse battery"}}
-	switch c.T.Choose(3) {
+	switch c.T.Weighted(1, 1, 3) {
 	case 1:
 		users = append(users, authconfig.UserConfig{Username: "bob", Password: ""})
 	case 2:
 		users = append(users, authconfig.UserConfig{Username: "bob", Password: ""}, authconfig.UserConfig{Username: "carol", Password: "pässwörd-ü"})
+	}
+	if c.T.Bool(1, 4) {
+		// two configured users whose names differ only in case
+		users = append(users, authconfig.UserConfig{Username: "Alice", Password: "another password entirely"})
 	}
 	db := map[string]string{}
 	for _, u := range users {
@@ -55,11 +59,17 @@ func runC14(c *Ctx) {
 		nt, lm, sbk := codec.NTLMv2Response(user, pass, domain, ch.ServerChallenge, c.T.Bytes(8, 1), ch.TargetInfo, time.Now())
 		return b64(codec.NTLMAuthenticate(user, domain, "WS", nt, lm, sbk))
 	}
+	// mkType3x names one user in the message but derives the response key from another
+	// user's name and password (what an insider who knows only their own password can do)
+	mkType3x := func(nameField, keyUser, pass, domain string, ch *codec.NTLMChallenge) string {
+		nt, lm, sbk := codec.NTLMv2Response(keyUser, pass, domain, ch.ServerChallenge, c.T.Bytes(8, 1), ch.TargetInfo, time.Now())
+		return b64(codec.NTLMAuthenticate(nameField, domain, "WS", nt, lm, sbk))
+	}
 	dummy := &codec.NTLMChallenge{ServerChallenge: []byte("12345678"), TargetInfo: []byte{0, 0, 0, 0}}
 	for i := 0; i < nops && c.S.Viol == nil; i++ {
 		sn := names[c.T.Choose(len(names))]
 		s := sess[sn]
-		kind := c.T.Weighted(5, 5, 2, 2, 2, 2, 2, 2, 1, 1, 1)
+		kind := c.T.Weighted(5, 5, 2, 2, 2, 2, 2, 2, 1, 1, 1, 3, 2)
 		var msg, what string
 		mustAuth := ""
 		switch kind {
@@ -83,7 +93,8 @@ func runC14(c *Ctx) {
 			if ch == nil {
 				ch = dummy
 			}
-			what, msg = "auth-wrong-password", mkType3("alice", "not the password", "", ch)
+			wu := users[c.T.Choose(len(users))].Username
+			what, msg = "auth-wrong-password("+wu+")", mkType3(wu, "not the password", "", ch)
 		case 3:
 			ch := s.chal
 			if ch == nil {
@@ -123,6 +134,39 @@ func runC14(c *Ctx) {
 			}
 		case 7:
 			what, msg = "empty-message", ""
+		case 12:
+			// a name that differs from a configured one only in case (NTLMv2 upper-cases the
+			// user name when deriving the key, so the proof is computed as for the configured
+			// user); such a name is not configured and must not be authenticated
+			u := users[c.T.Choose(len(users))].Username
+			v := strings.ToUpper(u)
+			if c.T.Bool(1, 2) {
+				v = strings.ToUpper(u[:1]) + u[1:]
+			}
+			ch := s.chal
+			if ch == nil {
+				ch = dummy
+			}
+			pw := db[u]
+			what, msg = fmt.Sprintf("auth-case-variant(%s of %s)", v, u), mkType3(v, pw, "", ch)
+		case 11:
+			// names one configured user but proves knowledge of ANOTHER configured user's
+			// password (an insider who knows only their own password)
+			named := users[c.T.Choose(len(users))].Username
+			other := users[c.T.Choose(len(users))].Username
+			ch := s.chal
+			if ch == nil {
+				ch = dummy
+			}
+			pw := db[other]
+			if other == named || pw == "" {
+				pw = "insider-guess"
+			}
+			if c.T.Bool(1, 2) {
+				what, msg = fmt.Sprintf("auth-as(%s)-with-password-of(%s)", named, other), mkType3(named, pw, "", ch)
+			} else {
+				what, msg = fmt.Sprintf("auth-as(%s)-with-key-of(%s)", named, other), mkType3x(named, other, pw, "", ch)
+			}
 		case 8:
 			d := time.Duration(c.T.Choose(90)) * time.Second
 			c.S.Advance(d)
